@@ -48,6 +48,10 @@ class Frame():
         for big_edge_id, big_edge in enumerate(self.big_edges_list):
             vertices_objects = [self.vertices[vid] for vid in big_edge]
             self.big_edges[big_edge_id] = fedge.BigEdge(big_edge_id, vertices_objects)
+            if len(big_edge) == 2:
+                # both ends may share a cell that does not have this edge on its boundary
+                self.big_edges[big_edge_id].own_cells = [cid for cid in self.big_edges[big_edge_id].own_cells
+                                                         if self._are_consecutive(cid, big_edge[0], big_edge[1])]
 
         self.external_edges_id = [self.big_edges_list.index(e) 
                                     for e in fs.virtual_edges.get_border_edge(self.big_edges_list, 
@@ -250,6 +254,11 @@ class Frame():
             df = df.loc[~df.id.isin(self.get_external_edges_ids())]
             
         return df.to_csv(os.path.join(folder, fname), index=False)
+
+    def _are_consecutive(self, cid: int, vid0: int, vid1: int) -> bool:
+        """True if the two vertices follow each other on the boundary of the cell"""
+        ids = [v.id for v in self.cells[cid].vertices]
+        return any({ids[ii - 1], ids[ii]} == {vid0, vid1} for ii in range(len(ids)))
 
     def get_big_edge_by_cells(self, c1_id: int, c2_id: int) -> fedge.BigEdge:
         """Get big edge object from the cells that compose it
